@@ -168,6 +168,29 @@ claim("C01",
   "Trusted: Coq kernel+vm_compute; translators gen_closed.py/gen_sites.py/gen_tables.py; harness/lib/pyscope.py (pyflakes-like name resolution); CPython's compile/import as the judge of validity (not modelled).",
   "Coq proof of the ingredients + regenerated closure facts + in-Coq file-set correspondence; compile/import/tomllib as search", "4/C01")
 
+claim("C17",
+  "PARTIAL. Coq theorems about Norm.v, an executable model of the schema-level normalisations (pydantic after-validators handle_nullable / handle_exclusive_min_max; "
+  "property_from_data dispatch order; EnumProperty/LiteralEnumProperty null extraction; UnionProperty member order anyOf, oneOf, type list with names <name>_type_<i> and flattening; "
+  "ListProperty <name>_item; single-reference passthrough with default re-validation; inline class naming) producing an abstract property tree, for ALL schemas, environments, names and "
+  "positions (no size bound): nullable_forms_equal / nullable_typelist_equal ({type:T,nullable:true} == {type:[T,null]}), nullable_oneof_equal / nullable_anyof_equal (nullable union == explicit null "
+  "member appended - twice where the validators run twice), nullable_allof_equal (== oneOf[null,{allOf}], null first), typelist_anyof_equal (type list == anyOf of the single types), enum_null_equal "
+  "(under g_enum_null: enum containing null == oneOf[{type:null},{enum: rest}] in exactly that member order with the same derived names / classes, any outer annotations), single_ref_wrapper + wrapper_exact "
+  "(under g_wrapper: allOf|oneOf|anyOf:[$ref R] with ANY other keywords == $ref R; with a default: exactly the referenced class renamed and the default re-validated), excl_bool_numeric_equal, hx_idempotent, "
+  "loader: parser_choice / json_parser_iff (JSON parser iff content type is exactly application/json), loader_dispatch / file_url_same / url_without_header_same (file and URL sources reach the same loader). "
+  "Refutation witnesses for each guard complement and for non-congruence: enum_null_typelist_refuted, nullable_union_top_refuted, wrapper_default_refuted, wrapper_nullable_refuted, wrapper_not_congruent_refuted. "
+  "Tie to the code on every run: B1 the real pydantic validators at the position the schema sits == Norm.pre_at/hx (~500 schemas quick); B2 the property objects built by build_schemas at component-root and "
+  "attribute positions, default and literal_enums config == Norm.norm (~450 trees quick); B3 the parser _get_document really runs for 22 file/URL/content-type variants == Norm.choose_parser; a static check that "
+  "`.nullable` is read only by the validator. Stage C (metamorphic, bytes): atlas + site-rich + random documents, every rewrite family (JSON vs YAML text, file vs in-process-patched URL with header variants, JSON text "
+  "through the YAML loader, version string, nullable notations, type list vs anyOf, enum-null vs explicit union, wrapper vs bare $ref at attribute/items/additionalProperties/union-member/parameter/body/response "
+  "positions, exclusive bounds) at random subsets of applicable positions, whole trees compared byte for byte (~120 pairs quick, ~1500 thorough); differences classified by the Coq guards (re-evaluated in Coq on every "
+  "rewritten site) and the position class into six listed findings or VIOLATION with (documents, rewrite, positions, first differing file+line).",
+  "Trusted / not proved: json.loads and ruamel YAML(typ=safe) are oracles WITHOUT law - their agreement on a document is sampled, not proved (that is why the claim is partial); mimetypes.guess_type and httpx are "
+  "runtime oracles (httpx.get is patched in-process); the tree abstracts a property to kind, names, class names, member order, enum values and raw default: Jinja rendering of a tree to bytes is covered only by the "
+  "byte-level sampling; default conversion (C13), enum member keys (C14), properties inside inline models (C15) and class-name collisions are other properties' subjects and carried opaquely; the double run of the "
+  "after-validators under non-Schema parents is an observed behaviour of the pinned pydantic, modelled and checked by B1. Unquoted YAML scalars that a JSON serialisation cannot express (e.g. response key 200 as an integer) "
+  "are different documents, not notation variants.",
+  "Coq proof (structural, all schemas) + in-Coq differential correspondence (validators, parser trees, loader) + byte-level metamorphic search classified by the Coq guards", "4/C17")
+
 def main():
     checks = []
     for pid in ALL:
